@@ -22,8 +22,14 @@ def spec_signature(k, prefix, seqs):
 		# reverse-complement strand as its own text; non-nucleotides map to a byte that never matches
 		RC = [COMP.get(b, 0) for b in reversed(U)]
 		for text in (U, RC):
-			for p in range(0, n - L - k + 1):
-				if text[p:p + L] == P:
+			tb, pb = bytes(text), bytes(P)
+			cand = []
+			q = tb.find(pb)
+			while q != -1:
+				cand.append(q)
+				q = tb.find(pb, q + 1)
+			for p in cand:
+				if p <= n - L - k and text[p:p + L] == P:
 					kmer = text[p + L:p + L + k]
 					if all(b in DIG for b in kmer):
 						v = 0
@@ -138,6 +144,23 @@ def cases(tier, seed):
 					s += _rand_seq(rnd, rnd.randrange(0, 4), b'N') + unit
 				seqs.append(s)
 			yield {'k': k, 'prefix': prefix, 'seqs': seqs, 'type': rnd.choice(['bytes', 'str', 'Seq']), 'acc': rnd.choice(['default', 'set'] if k > 12 else ['default', 'set', 'array']), 'single': False}
+	# long sequences: a match planted across EVERY power-of-two offset up to the sequence length (windowed / chunked searches)
+	for top, k, L in ((2 ** 21 + 300, 11, 5), (2 ** 17 + 50, 4, 2)) if tier == 'quick' else ((2 ** 22 + 300, 11, 5), (2 ** 21 + 300, 11, 5), (2 ** 17 + 50, 4, 2), (2 ** 20 + 7, 16, 3)):
+		prefix = _rand_seq(rnd, L, b'ACGT')
+		for strand in (0, 1):
+			s_ = bytearray(b'N' * top)
+			p2 = 2 ** 9
+			while p2 < top:
+				kmer = _rand_seq(rnd, k, b'ACGT')
+				unit = bytes(prefix + kmer)
+				if strand:
+					unit = bytes(COMP[b] for b in reversed(unit))
+				off = p2 - rnd.randrange(1, L + k)      # the unit straddles offset p2
+				s_[off:off + len(unit)] = unit
+				p2 *= 2
+			if rnd.random() < .5:
+				s_ = bytearray(bytes(s_).lower())
+			yield {'k': k, 'prefix': prefix, 'seqs': [list(s_)], 'type': rnd.choice(['bytes', 'str']), 'acc': 'default', 'single': True, 'big': True}
 	alphas = [b'ACGT', b'ACGTN', b'ACGTacgtNn-', b'AT', b'ATat', bytes(range(256))]
 	N = 1500 if tier == 'quick' else 40000
 	for i in range(N):
@@ -167,12 +190,12 @@ def bounded(tier, seed):
 	for c in cases(tier, seed):
 		r = run_case(c)
 		n += 1
-		if len(sample) < 3 and n % 3001 == 17:
+		if len(sample) < 3 and n % 3001 == 17 and not c.get('big'):
 			sample.append({'case': c, 'result': r})
 		if not r.get('ok'):
 			failures.append({'case': c, 'expected': r.get('expected'), 'actual': r.get('actual'), 'class': 'signature'})
 			if len(failures) >= 5:
 				break
 	return {'tool': 'real calc_signature against a brute-force two-strand enumeration',
-	        'bound': 'all ACGT sequences of length <= 5 (thorough 6) for 7 (k, prefix) pairs; random sequences < 200 bytes, k <= 13; planted k-mers over the whole index range for k = 4..32 at every index-dtype boundary; 4 input types, 3 accumulator choices',
+	        'bound': 'all ACGT sequences of length <= 5 (thorough 6) for 7 (k, prefix) pairs; random sequences < 200 bytes, k <= 13; planted k-mers over the whole index range for k = 4..32 at every index-dtype boundary; sequences of up to 2^21 (thorough 2^22) bytes with a match planted across every power-of-two offset, both strands; 4 input types, 3 accumulator choices',
 	        'cases': n, 'failures': failures, 'samples': sample}
